@@ -10,7 +10,6 @@
  * @timeout 300
  * @memgb 4
  * @instance cstream -DH_CSTREAM
- * @instance cctx tier=thorough timeout=1800 memgb=8 -DH_CCTX
  * @instance cparams -DH_CPARAMS
  */
 #include "v.h"
